@@ -640,6 +640,7 @@ def expand_basis_spec(counts=True):
     parameter leaves the counting to the caller: the contract then says `not counted here`, and `every operator application is counted` is decided where it
     belongs, in factorize_from."""
     c = "1" if counts else "0"
+    has_v = bool(re.search(r"\bVector\b[^;]*\bv\(", f.body))     # the scratch vector of the first try
     return FSpec("expand_basis", "void", [("Fac *", "F"), ("Mat", "V"), ("Index", "seed"), ("Scalar *", "f"), ("Scalar *", "fnorm"), ("Index *", "op_counter")],
                  pre=[("V is the leading block of the basis, f a length-n vector", "V.rows == F->m_n && 0 <= V.cols && V.cols <= F->m_m && VEC_SIZE(f) == F->m_n && F->m_op->n == F->m_n && 0 <= F->m_n && F->m_n <= NMAX"),
                       ("seed of the library form 2*i", "0 <= seed && seed <= 2 * NMAX"),
@@ -665,11 +666,11 @@ def f_expand_basis(report):
     t, R = cgen.emit(f, "expand_basis", ret_c="void", self_type="Fac", self_name="F", members=FAC_MEMBERS,
                      param_types={"V": "Mat", "seed": "Index", "f": "Scalar *", "fnorm": "REF", "op_counter": "REF"},
                      extra_rules=[("rng", r"SimpleRandom<Scalar> rng\(([^;]+)\);", r"const Index verif_seed = (\1); __CPROVER_assert(verif_seed >= 0, @Q@SimpleRandom seed is non-negative@Q@);", {"max": 1}),
-                                  ("random_vec", r"rng\.random_vec\((\w+)\);", r"HAVOC_VEC(\1);", {"min": 2, "max": 2}),
+                                  ("random_vec", r"rng\.random_vec\((\w+)\);", r"HAVOC_VEC(\1);", {"min": 1, "max": 2}),
                                   ("accept", r"if \(([^;{}]*?)\)\s*return;", r"if (\1) { g_accepted = 1; return; }", {"min": 1, "max": 1})],
                      post_fn=fac_post_fn(["V"], ["f", "v", "Vf"], stm), maythrow=["OP_perform_op"],
                      contract=spec.frame_contract(),
-                     loop_contracts={0: "__CPROVER_assigns(iter, *fnorm, *op_counter, g_ops, verif_exc, g_accepted, __CPROVER_object_whole(f), __CPROVER_object_whole(v), __CPROVER_object_whole(Vf)) "
+                     loop_contracts={0: "__CPROVER_assigns(iter, *fnorm, *op_counter, g_ops, verif_exc, g_accepted, __CPROVER_object_whole(f), %s__CPROVER_object_whole(Vf)) " % ("__CPROVER_object_whole(v), " if has_v else "") +
                                         "__CPROVER_loop_invariant(0 <= iter && iter <= 5 && verif_exc == 0 && !g_accepted) "
                                         "__CPROVER_loop_invariant(iter == 0 ? (g_ops == old_ops_l && (*op_counter) == old_cnt_l) : (g_ops == old_ops_l + 1 && (*op_counter) == old_cnt_l + %s && (*fnorm) >= (Scalar)0)) " % c +
                                         "__CPROVER_decreases(5 - iter)",
@@ -726,8 +727,15 @@ def f_factorize_from(which, report):
     stm = []
     spec = factorize_spec(which)
     f = X.locate(hdr, "factorize_from", cls=which)
-    extra = [("expand", r"(?:this->)?expand_basis\(V,\s*([^,]+),\s*F->m_fac_f,\s*F->m_beta(?:,\s*\(\*op_counter\))?\);",
-              r"expand_basis(F, V, \1, F->m_fac_f, &F->m_beta, op_counter);", {"max": 1}),
+    mcol = re.search(r"for \(Index (\w+) = from_k;", f.body)
+    if not mcol:
+        raise X.ExtractionBreak("%s::factorize_from: column loop `for (Index i = from_k; ...)` not recognised" % which)
+    COL = mcol.group(1)
+    # C07 (V^H B V = I, V^H B f = 0 after a breakdown): the fresh direction has to be orthogonalised against ALL columns built so far, i.e. the block handed to
+    # expand_basis is the leading `i` columns of V for the column index i of the loop - asserted at the call site
+    extra = [("expand", r"(?:this->)?expand_basis\((\w+),\s*([^,]+),\s*F->m_fac_f,\s*F->m_beta(?:,\s*\(\*op_counter\))?\);",
+              r"__CPROVER_assert(\1.cols == %s, @Q@breakdown: the new direction is orthogonalised against all basis columns built so far (V has exactly i columns)@Q@); "
+              r"expand_basis(F, \1, \2, F->m_fac_f, &F->m_beta, op_counter);" % COL, {"max": 1}),
              ("mk", r"F->m_k = to_m;", "F->m_k = to_m; F->g_valid_k = to_m; g_clock++; F->st_fac = g_clock;", {"max": 1})]
     if which == "Arnoldi":
         extra.append(("h-map", r"MapVec h\(&F->m_fac_H\(0, i\), i1\);", "Scalar *h = MAT_COLPTR(&F->m_fac_H, 0, i); __CPROVER_assert(i1 <= F->m_fac_H.rows, @Q@Eigen::Map of a column segment stays inside the column@Q@);", {"max": 1}))
@@ -1644,6 +1652,9 @@ def norm_kind(report):
         for m in re.finditer(r"[\w.>-]+\.norm\(\)", f.body):
             if not m.group(0).startswith("m_op"):
                 bad.append("%s::%s uses the Euclidean norm `%s`" % (cls, fn, m.group(0)))
+        # Euclidean normalisations of a vector (x.normalized(), x.normalize(), squaredNorm / stableNorm / blueNorm): a basis vector must be scaled by its B-norm
+        for m in re.finditer(r"[\w.>-]+\.(normalized|normalize|squaredNorm|stableNorm|blueNorm|hypotNorm)\(\)", f.body):
+            bad.append("%s::%s uses the Euclidean `%s`" % (cls, fn, m.group(0)))
     report["norm_kind"] = {"assignments_seen": seen, "bad": bad}
     return z3lemma.StaticGroup("norm.kind", ok=not bad and seen >= 8, detail="; ".join(bad) or "%d norm assignments in Arnoldi/Lanczos, all through m_op.norm() (B-inner product) or literal 0" % seen,
                                obligation="residual norms used to normalise basis vectors are B-norms")
